@@ -209,6 +209,8 @@ var c13sel = gen.Register(&gen.Check[caseC13sel]{
 			c.Alias = 3
 		case 5:
 			c.Alias = 4
+		case 6: // every subset of the pointer arguments can be nil, not just one at a time
+			c.NilU, c.NilV = true, true
 		}
 		return c
 	},
@@ -218,9 +220,13 @@ var c13sel = gen.Register(&gen.Check[caseC13sel]{
 		for _, w := range condWords {
 			out = append(out, caseC13sel{Cond: w, U: a, V: b, Prior: p})
 		}
+		for _, w := range []uint64{0, 1, 2, ^uint64(0)} {
+			out = append(out, caseC13sel{Cond: w, U: a, V: b, Prior: p, NilU: true}, caseC13sel{Cond: w, U: a, V: b, Prior: p, NilV: true},
+				caseC13sel{Cond: w, U: a, V: b, Prior: p, NilU: true, NilV: true})
+		}
 		return out
 	},
-	Required: []string{"cond=0", "cond=1", "cond>1", "nil", "alias"},
+	Required: []string{"cond=0", "cond=1", "cond>1", "nil", "nil:both", "alias"},
 	Run: func(c caseC13sel, o *gen.Obs) error {
 		u, v, r := c.U.Build(), c.V.Build(), c.Prior.Build()
 		vu, vv, vp := c.U.Value(), c.V.Value(), c.Prior.Value()
@@ -239,6 +245,7 @@ var c13sel = gen.Register(&gen.Check[caseC13sel]{
 		o.ClassIf(c.Cond == 1, "cond=1")
 		o.ClassIf(c.Cond > 1, "cond>1")
 		o.ClassIf(c.NilU || c.NilV, "nil")
+		o.ClassIf(c.NilU && c.NilV, "nil:both")
 		o.ClassIf(c.Alias != 0, "alias")
 		o.NonTrivialIf(c.Cond > 1 && vu.Cmp(vv) != 0 && !c.NilU && !c.NilV)
 		au, av := u, v
